@@ -23,7 +23,7 @@ def events_equal(engine_list, native_list):
     return norm(runner.norm_events(engine_list or [])) == norm([e.strip() for e in (native_list or [])])
 
 
-def process_harness(ctx, res, pkg_rel, max_replay_per_driver=2, order_free=None):
+def process_harness(ctx, res, pkg_rel, max_replay_per_driver=2, order_free=None, depth_family=None):
     """Single-world harness results: replay models natively, classify, print lines.
     Returns (n_violations_new, known_matched, replayed, mismatches, details)."""
     cases = []
@@ -43,6 +43,10 @@ def process_harness(ctx, res, pkg_rel, max_replay_per_driver=2, order_free=None)
             return False
         if f["kind"] == "uncaught-panic":
             return n["panic"] not in ("", "<nil>")
+        if depth_family and f["assert_id"] in depth_family:
+            # stack depths are not the same numbers natively (inlining, runtime frames): growth may
+            # become visible at another advance; any failed depth assertion of the family confirms
+            return any(a in depth_family for a in n["fails"])
         return f["assert_id"] in n["fails"]
 
     # native map iteration order is random: a failure that depends on the order (the engine fixes
@@ -67,10 +71,9 @@ def process_harness(ctx, res, pkg_rel, max_replay_per_driver=2, order_free=None)
             same_logs = all(events_equal(f["logs"].get(l), n["logs"].get(l)) for l in set(f["logs"]) | set(n["logs"]))
             if order_free and re.search(order_free, d["name"]):
                 same_logs = True  # native map iteration order is random; only the failure itself is compared
-            if f["kind"] == "uncaught-panic":
-                failed = n["panic"] not in ("", "<nil>")
-            else:
-                failed = f["assert_id"] in n["fails"]
+            failed = native_failed(f, n)
+            if depth_family and f["assert_id"] in depth_family:
+                same_logs = True
             confirmed = same_logs and failed
             if not confirmed:
                 why = "native run disagrees with the engine (same_logs=%s, native fails=%s, panic=%s)" % (same_logs, n["fails"], n["panic"])
@@ -175,6 +178,11 @@ def finish(ctx, res, level, new, known, replayed, mismatches, coverage_extra, as
     if floors:
         for key, floor in floors.items():
             val = cov.get(key, 0)
+            if key == "drivers_undecided_max":
+                if cov.get("drivers_undecided", 0) > floor:
+                    print("ERROR coverage-collapsed property=%s drivers_undecided=%s above the cap %s" % (ctx.pid, cov.get("drivers_undecided"), floor))
+                    return 2
+                continue
             if key == "drivers_holds":
                 val = cov.get("drivers_holds", 0) + cov.get("drivers_violated", 0)  # decided drivers
             if val < floor:
@@ -357,12 +365,13 @@ def plan_C17(ctx):
     args[args.index("-maxpaths") + 1] = "100000"
     res = runner.run_engine(ctx, hargs + ["-drivers", "^Drive_|^DriveDepth_"] + args)
     direct = {"drivers": [d for d in res["drivers"] if "/rt/c17." in d["name"]]}
-    new, known, replayed, mism, details = process_harness(ctx, direct, "rt/c17")
+    DEPTH_IDS = set(range(1700, 1760))
+    new, known, replayed, mism, details = process_harness(ctx, direct, "rt/c17", depth_family=DEPTH_IDS)
     for d in res["drivers"]:
         if "/rt/c17." in d["name"] or d["status"] != "violated":
             continue
         pkg_rel = "out/" + d["name"].rsplit(".", 1)[0].split("/")[-1]
-        a, b, c, e, f = process_harness(ctx, {"drivers": [d]}, pkg_rel, max_replay_per_driver=1)
+        a, b, c, e, f = process_harness(ctx, {"drivers": [d]}, pkg_rel, max_replay_per_driver=1, depth_family=DEPTH_IDS)
         new += a; known += b; replayed += c; mism += e; details += f
     extra = {
         "bounds": {"non_yielding_iterations_n": "0..%d (symbolic, each iteration ends Normal or Continue)" % maxn,
@@ -487,6 +496,12 @@ def directed_c01():
     D.append(("while_continue_in_yielding_if_then_trailing", [("decl", "i", "0"), ("for", None, "i < n + 1", None, [("if", "i & 1 == 0", [Y("i + 1"), ("inc", "i"), ("continue",)], None), ("inc", "i"), E(1)]), Y("a")]))
     D.append(("while_continue_in_yielding_switch_then_trailing", [("decl", "i", "0"), ("decl", "t", "0"), ("for", None, "i < n + 1", None, [("switch", None, "i & 1", [("0", [Y("i + t"), ("inc", "i"), ("continue",)])], None), ("inc", "i"), ("assign", "t", "t + 10")]), Y("t")]))
     D.append(("while_continue_after_delegation_then_trailing", [("decl", "i", "0"), ("for", None, "i < n", None, [("if", "g1", [("yieldfrom", "H2(i)"), ("inc", "i"), ("continue",)], None), ("inc", "i"), E(2)]), Y("i")]))
+    # a loop with a post whose body ends in a terminating statement, with a continue in front of it
+    D.append(("post_loop_body_ends_in_return_continue_before", [("for", ("decl", "i", "0"), "i < n + 2", ("inc", "i"), [("if", "i & 1 == 0", [Y("i + 1"), ("continue",)], None), Y("i + 100"), ("return",)]), Y("a")]))
+    D.append(("yield_post_loop_body_ends_in_return_continue_before", [("decl", "i", "0"), ("for", None, "i < n + 2", ("yield", "i + 200"), [("inc", "i"), ("if", "g1", [("continue",)], None), Y("i + 1"), ("return",)]), Y("b")]))
+    D.append(("post_loop_body_ends_in_endless_loop", [("for", ("decl", "i", "0"), "i < n + 1", ("inc", "i"), [("if", "i == 0", [("continue",)], None), ("for", None, None, None, [Y("i + 1"), ("if", "g1", [("return",)], None), ("inc", "i"), ("if", "i > 3", [("return",)], None)])]), Y("a")]))
+    # a switch whose only clause is default: the tag is still evaluated
+    D.append(("default_only_switch_tag_effect", [("switch", None, "rt.Eff(77, a & 1)", [], [Y("a + 1"), E(1)]), ("for", ("decl", "i", "0"), "i < n", ("inc", "i"), [("switch", None, "rt.Eff(78, i)", [], [Y("i + 2")])]), Y("b")]))
     D.append(("tagless_switch_in_loop_with_continue", [("for", ("decl", "i", "0"), "i < n", ("inc", "i"), [("switch", None, None, [("i == 0", [Y("a + 1")]), ("i > 1", [Y("i + 2"), ("continue",)])], [E(1)]), Y("i + 100")]), Y("b")]))
     D.append(("tagless_switch_with_init_last_in_loop", [("for", ("decl", "i", "0"), "i < n", ("inc", "i"), [("switch", ("decl", "x", "i + a"), None, [("x > b", [Y("x + 1")]), ("g1", [E(1)])], None)]), Y("b")]))
     D.append(("for_without_condition", [("for", ("decl", "i", "0"), None, ("inc", "i"), [("if", "i >= n", [("break",)], None), Y("i + 1"), ("if", "g1", [("continue",)], None), E(1)]), Y("a")]))
@@ -977,6 +992,10 @@ def directed_c03():
     D.append(("assign_range_leading_self_copy", [("raw", "var k, v int"), ("range", "k", "v", "=", "[]int{a, b, a + b}", [("raw", "v := v\nk := k"), ("assign", "v", "v * 10"), ("assign", "k", "k + 100"), Y("k + v")]), Y("k"), Y("v")]))
     D.append(("assign_range_self_copy_captured", [("raw", "var v int\nvar fs []func() int"), ("range", "_", "v", "=", "[]int{a, b}", [("raw", "v := v\nfs = append(fs, func() int { return v })"), Y("v")]), ("raw", "for _, f := range fs {\n\tYield(f() + 1000)\n}"), Y("v + 1")]))
     D.append(("define_range_leading_self_copy", [("range", "k", "v", ":=", "[]int{a, b}", [("raw", "v := v\nk := k"), ("assign", "v", "v * 10"), Y("k + v")]), Y("a")]))
+    # yield-free bare blocks that shadow with var / const / type declarations
+    D.append(("bare_block_var_shadow_after_yield", [("decl", "x", "a + 1"), ("raw", "get := func() int { return x }"), Y("x"), ("block", [("raw", "var x int = b + 2\nrt.Emit(45, x)")]), Y("x + 3"), ("assign", "x", "x + 4"), Y("get()")]))
+    D.append(("bare_block_const_type_shadow_after_yield", [("decl", "x", "a + 1"), Y("x"), ("block", [("raw", "const x = 7\ntype y struct{ f int }\nrt.Emit(45, x+y{f: 1}.f)")]), ("decl", "y", "b + 2"), Y("x + y")]))
+    D.append(("bare_block_var_shadow_in_loop", [("decl", "x", "a"), ("for", ("decl", "i", "0"), "i < n", ("inc", "i"), [Y("x + i"), ("block", [("raw", "var x = i + 100\nrt.Emit(45, x)")]), ("assign", "x", "x + 1")]), Y("x")]))
     D.append(("init_after_yield", [Y("a + 1"), ("for", ("decl", "x", "a"), "x < a + n", ("inc", "x"), [Y("x + 2")]), ("decl", "x", "b"), Y("x + 3")]))
     # loop-variable identity: closures created in one iteration, called after the loop
     D.append(("range_var_captured_escapes", [("raw", "var fs []func() int"), ("range", "_", "v", ":=", "[]int{a, b, a + b}", [("raw", "fs = append(fs, func() int { return v })"), Y("v + 1")]), ("raw", "for _, f := range fs {\n\tYield(f() + 1000)\n}")]))
@@ -1228,7 +1247,7 @@ def plan_C07(ctx):
             corp.add(p)
         # closures over functions of other imported packages whose signature is the only mention of a
         # further import: whatever the optimiser does to them, import clean-up must leave a file that builds
-        IMPS = [("scanner", "bufio io", "var mk@ = func(r io.Reader) *bufio.Scanner { return bufio.NewScanner(r) }\nvar _ = mk@"),
+        IMPS = [("scanner", "bufio io _embed _unicode/utf8", "var mk@ = func(r io.Reader) *bufio.Scanner { return bufio.NewScanner(r) }\nvar _ = mk@"),
                 ("writer", "bufio io", "var mk@ = func(w io.Writer) *bufio.Writer { return bufio.NewWriter(w) }\nvar _ = mk@"),
                 ("tabwriter_in_generator", "io text/tabwriter", None)]
         for name, imps, decl in IMPS:
@@ -1266,6 +1285,8 @@ def plan_C13(ctx):
         # ahead of the cursor (a native range sees the stored elements)
         PRE = "pre := func(xs []int) {\n\tfor i, v := range xs {\n\t\tif i+1 < len(xs) {\n\t\t\txs[i+1] += v\n\t\t}\n\t}\n}\nxs := []int{a, b, a + b, 1}\npre(xs)"
         PA = "var arr [4]int\nfill := func(p *[4]int) {\n\tfor i, v := range p {\n\t\tif i+1 < len(p) {\n\t\t\tp[i+1] = v + a + i\n\t\t}\n\t}\n}\narr[0] = b\nfill(&arr)"
+        TAIL = "tail := func(xs []int) (int, int) {\n\tidx, last := -1, -1\n\tfor idx, last = range xs {\n\t}\n\treturn idx, last\n}\ni1, l1 := tail([]int{a, b, a + b})"
+        ps.append(gen.Program("n_closure_assign_range_empty_body", [("raw", TAIL), ("yield", "i1*100 + l1"), ("raw", "var off int\nvar r rune\nfor off, r = range \"héé\" {\n}"), ("yield", "off*1000 + int(r)")], named_result=True, family="bys", tags={"bystander:closure-in-generator"}))
         ps.append(gen.Program("n_closure_prefix_sums", [("raw", PRE), ("yield", "xs[1]"), ("yield", "xs[2] + xs[3]")], named_result=True, family="bys", tags={"bystander:closure-in-generator"}))
         ps.append(gen.Program("n_closure_array_pointer_fill", [("yield", "a"), ("raw", PA), ("yield", "arr[1]"), ("yield", "arr[2] + arr[3]")], named_result=True, family="bys", tags={"bystander:closure-in-generator"}))
         DIRS = "//go:noinline\nfunc pin@(x int) int { return x*3 + 1 }\n\n//go:embed gen_@.go\nvar hdr@ string\n\n// a free-floating remark that nothing depends on\n\n//go:nosplit\nfunc tiny@() int { return len(hdr@) & 1 }\n"
@@ -1501,7 +1522,7 @@ def plan_C14(ctx):
                   "heap_cells_tracked": sum(d.get("tracked_cells", 0) for d in res["drivers"]), "details": details[:20]})
     return finish(ctx, res, "model_checking", new, known, replayed, mism, extra,
                   [PROGRAM_DIM, "goroutines are not modelled: 'do not race' is decided as footprint disjointness on every explored path"],
-                  floors={"drivers_holds": ctx.q(50, 200)}, sv={"harness_pkg_of_driver": "out", "order_free": "|".join("G%s$" % x for x in map_pids) or None})
+                  floors={"drivers_holds": ctx.q(50, 200), "drivers_undecided_max": 2}, sv={"harness_pkg_of_driver": "out", "order_free": "|".join("G%s$" % x for x in map_pids) or None})
 
 
 CLAIMED["C14"] = plan_C14
